@@ -106,7 +106,7 @@ pub fn checks() -> Vec<Check> {
     });
     v.push(Check {
         prop: "C04",
-        parts: vec![Part { name: mem::MEM.name(), xen: false, quick: 1_500_000, thorough: 60_000_000 }],
+        parts: vec![Part { name: mem::MEM.name(), xen: false, quick: 1_500_000, thorough: 60_000_000 }, Part { name: "S-mem", xen: true, quick: 300_000, thorough: 15_000_000 }],
         rule: "runs are seeded histories of up to 30 accessor operations (buffers, objects, typed refs, element arrays, element-wise and slice-to-slice copies, atomics, references, in-memory streams) by 1-3 actors switched between operations on 1-2 containers (VolatileSlice over simulated RAM with guard pages and canaries, or an anonymous MmapRegion), reached through derivation chains; distinct = distinct event-log hash; non-trivial = at least one operation succeeded and at least one was rejected or cut off",
         assumptions: COMMON_ASSUMPTIONS.to_vec(),
         real: vec!["vm_memory::volatile_memory (VolatileSlice, VolatileRef, VolatileArrayRef, copy_slice_impl), Bytes, MmapRegion (compiled from /repo working tree)", "kernel mmap for the region container"],
@@ -145,8 +145,8 @@ pub fn checks() -> Vec<Check> {
     });
     v.push(Check {
         prop: "C03",
-        parts: vec![Part { name: gm::GM.name(), xen: false, quick: 1_000_000, thorough: 50_000_000 }],
-        rule: "runs are seeded histories of up to 14 operations (buffer / slice / object / atomic / stream accesses at guest-memory level, accesses through get_slice + derivation and through find_region) by 1-3 actors switched between operations on a layout of 1-4 regions (anonymous or memfd-backed; touching, 1-byte holes, huge holes, at 0, ending at the top of the address space); after every step all regions are re-read through host pointers and backing files and compared with a flat sparse byte-array model; distinct = distinct event-log hash; non-trivial = at least one operation succeeded and one was rejected or cut off",
+        parts: vec![Part { name: gm::GM.name(), xen: false, quick: 1_000_000, thorough: 50_000_000 }, Part { name: "S-gm", xen: true, quick: 300_000, thorough: 15_000_000 }],
+        rule: "runs are seeded histories of up to 14 operations (buffer / slice / object / atomic / stream accesses at guest-memory level, accesses through get_slice + derivation and through find_region) by 1-3 actors switched between operations on a layout of 1-4 regions (anonymous or memfd-backed, in the standard build and as Xen-UNIX mappings in the xen build; touching, 1-byte holes, huge holes, at 0, ending at the top of the address space); after every step all regions are re-read through host pointers and backing files and compared with a flat sparse byte-array model; distinct = distinct event-log hash; non-trivial = at least one operation succeeded and one was rejected or cut off",
         assumptions: COMMON_ASSUMPTIONS.to_vec(),
         real: vec!["vm_memory GuestMemory::try_access and Bytes<GuestAddress>, GuestRegionMmap, GuestMemoryMmap, MmapRegion (compiled from /repo working tree)", "kernel mmap / memfd / pread"],
         stub: vec!["actor interleaving at operation granularity (seeded)"],
@@ -171,7 +171,7 @@ pub fn checks() -> Vec<Check> {
     for prop in ["C10", "C12"] {
         v.push(Check {
             prop,
-            parts: vec![Part { name: hotplug::SEQ.name(), xen: false, quick: 600_000, thorough: 30_000_000 }],
+            parts: vec![Part { name: hotplug::SEQ.name(), xen: false, quick: 600_000, thorough: 30_000_000 }, Part { name: "S-hotplug/sequential", xen: true, quick: 200_000, thorough: 10_000_000 }],
             rule: "runs are seeded histories of up to 25 handle operations (create anonymous / file-backed / externally mapped regions incl. overlapping, adjacent, duplicate-start and top-of-address-space bases and injected mmap failures; from_regions / from_arc_regions; insert_region; remove_region with right and wrong size or address; clone; publish into a GuestMemoryAtomic; snapshot; into_inner; replace; drop of any live handle in any order), every earlier handle kept alive and re-checked after each step against a model of the region lists and of the process address space (mmap/munmap seam); distinct = distinct event-log hash; non-trivial = at least one request accepted, one refused and one handle dropped mid-history",
             assumptions: COMMON_ASSUMPTIONS.to_vec(),
             real: vec!["vm_memory GuestMemoryMmap / GuestRegionMmap / MmapRegion (build, build_raw, Drop) / GuestMemoryAtomic (compiled from /repo working tree)", "arc-swap, std Arc", "kernel mmap/munmap/memfd when the injector passes through"],
